@@ -1151,7 +1151,7 @@ impl CrashX {
                     let dir = ex.dir.clone();
                     let _ = ex.finish(Ok(()));
                     // reopen: exactly pre or post
-                    match std::panic::catch_unwind(|| open_nomt::<B3>(&dir, &cfg0)) {
+                    match std::panic::catch_unwind(|| crate::driver::open_nomt_retry::<B3>(&dir, &cfg0, 10)) {
                         Err(_) => record_v(format!("reopen-panic:{fclass}"), format!("{what}: reopening afterwards panicked"), &mut found),
                         Ok(Err(e)) => record_v(format!("reopen-failed:{fclass}"), format!("{what}: reopening afterwards failed: {e:#}"), &mut found),
                         Ok(Ok(n)) => {
@@ -1220,7 +1220,7 @@ impl CrashX {
         o.transitions += 1;
         if o.violation.is_none() {
             // reopen: the failed commit must be invisible (the model was not advanced by it)
-            match open_nomt::<B3>(&dir, &cfg) {
+            match crate::driver::open_nomt_retry::<B3>(&dir, &cfg, 10) {
                 Err(e) => o.violation = Some(viol("reopen-failed:bucket-exhaustion", format!("reopen after bucket exhaustion failed: {e:#}"))),
                 Ok(n) => {
                     if let Err(m) = audit::<B3>(&n, &model_before, &uni, AuditFlags::ALL) {
